@@ -458,11 +458,32 @@ def run(out, tier, scratch):
         detail = "model and implementation differ (lock-step) on: " + " | ".join(
             json.dumps({"cfg": metas[i][0], "tree": metas[i][1]}) for i in fails[:3])
     out.oblige("correspondence:Model.Mpu vs odc.geo.cog._mpu (lock-step)", "correspondence", not fails, detail)
+    fails2 = []
     if e2e_cases:
         fails2, log2 = core.coq_eval_failures(["Base.Result", "Model.Mpu", "Model.MpuCases"], "case", "check", e2e_cases,
                                               scratch, shard=20, tag="mpue")
         out.oblige("correspondence:Model.Mpu vs mpu_write(...).compute() through dask", "correspondence", not fails2,
                    "differs on e2e cases " + str(fails2[:5]) if fails2 else "")
+    # the dask path disagrees with the model but no clause was seen to fail yet: search that path harder
+    if e2e_cases and fails2 and not found:
+        srng = core.rng("c06-e2e-search")
+        for i in range(3000):
+            n = srng.choice([2, 2, 3, 4, 5])
+            cfg = rand_cfg(srng, n, tight=(i % 4 == 0))
+            partitions = [rand_sizes(srng, cfg["minw"]) for _ in range(n)]
+            subs, left = [], n
+            while left:
+                k = srng.randint(1, left)
+                subs.append(k)
+                left -= k
+            tree, r = run_dask(cfg, partitions, subs if i % 2 else [n], "synchronous", i)
+            out.count("dask:search")
+            flat = {"leaf": partitions[0]}
+            for x in partitions[1:]:
+                flat = [flat, {"leaf": x}]
+            judge(cfg, tree if tree is not None else flat, r, f"dask search case {i}")
+            if found:
+                break
     # when the model and the code disagree, shrink towards a property violation on the implementation
     if fails and not found:
         for i in fails[:50]:
